@@ -99,17 +99,22 @@ func limbAlphabet(i int, n int) []uint64 {
 
 // reducedProduct enumerates the full product of an n-value alphabet over all limbs.
 func reducedProduct(n int, f func(l []uint64)) {
+	reducedProductN(func(int) int { return n }, f)
+}
+
+// reducedProductN: per-limb alphabet sizes.
+func reducedProductN(size func(limb int) int, f func(l []uint64)) {
 	idx := make([]int, nLimbs)
 	l := make([]uint64, nLimbs)
 	for {
 		for i := range l {
-			l[i] = limbAlphabet(i, n)[idx[i]]
+			l[i] = limbAlphabet(i, size(i))[idx[i]]
 		}
 		f(l)
 		k := 0
 		for k < nLimbs {
 			idx[k]++
-			if idx[k] < n {
+			if idx[k] < size(k) {
 				break
 			}
 			idx[k] = 0
@@ -177,14 +182,24 @@ func jobC18(c *rt.Ctx) {
 	c.Require("Add", "Sub", "Mul/R*R", "Mul/B2*B2", "Square", "Contract/noncanonical", "Expand", "Recip", "PowTwo252m3", "SwapConditional", "Neg", "SquareTimes", "AddAfterBasic", "SubAfterBasic", "AddReduce", "SubReduce")
 	nA := 4
 	if c.Thorough() {
-		nA = 5
+		nA = 6
 	}
 	if nLimbs == 10 {
 		nA = 2
 	}
 	// class R base set: full product over limbs
 	var R []elem
-	reducedProduct(nA, func(l []uint64) { R = append(R, mk(l, "R")) })
+	if nLimbs == 10 && c.Thorough() {
+		// 32-bit thorough: 3 values on the two lowest and two highest limbs, 2 elsewhere (5,184 elements)
+		reducedProductN(func(i int) int {
+			if i <= 1 || i >= 8 {
+				return 3
+			}
+			return 2
+		}, func(l []uint64) { R = append(R, mk(l, "R")) })
+	} else {
+		reducedProduct(nA, func(l []uint64) { R = append(R, mk(l, "R")) })
+	}
 	sp := specials()
 	R = append(R, sp...)
 	var Rextra []elem // 32-bit: deviation-level-2 elements (unary ops and pairing with the subset)
